@@ -33,6 +33,7 @@
 #include "safe_str_lib.h"
 #else
 #include "safeclib_private.h"
+#include "mem/mem_primitives_lib.h"
 #endif
 
 /**
@@ -80,16 +81,27 @@ EXPORT errno_t _strzero_s_chk(char *dest, rsize_t dmax,
         CHK_DEST_OVR("strzero_s", destbos)
     }
 
-    /* null string to eliminate data */
-    while (dmax && *dest) {
-        *dest = '\0';
-        dmax--;
-        dest++;
-    }
+    /* null string to eliminate data. Through a volatile pointer, and with
+       a barrier as in memset_s: the stores must survive even when the
+       compiler sees that the caller never reads dest again (LTO). */
+    {
+        volatile char *dp = dest;
+        while (dmax && *dp) {
+            *dp = '\0';
+            dmax--;
+            dp++;
+        }
 #ifdef SAFECLIB_STR_NULL_SLACK
-    if (dmax && !*dest)
-        memset(dest, 0, dmax);
+        if (dmax && !*dp) {
+            while (dmax) {
+                *dp = '\0';
+                dmax--;
+                dp++;
+            }
+        }
 #endif
+    }
+    MEMORY_BARRIER;
 
     return (EOK);
 }
